@@ -117,6 +117,7 @@ def handle (ws : List String) : String :=
       | "0" => "returned:caught:TypeError:_from_host;then:1,<nil>;rest:ok;follow:ok"
       | "1" | "3" | "tostring" | "tostring-call" => "halted;rest:ok;follow:ok"
       | "2" => "returned:returned;then:1,<nil>;rest:ok;follow:ok"
+      | "after-halt" => "halted;same-as-fresh;rest:ok;follow:ok"
       | "closed" => "returned:110,<nil>;rest:ok;follow:ok"
       | "rethrow-error" => "returned:RangeError,true,TypeError,true,ReferenceError,<nil>;rest:ok;follow:ok"
       | _ => "bad-op"
